@@ -1,6 +1,6 @@
 #!/bin/bash
 # usage: tryseed.sh <PID> <diff> [check args]
 pid=$1; diff=$2; shift 2
-cd /var/tmp/vf-mut && git checkout -q -- . && git reset -q --hard $(git -C /repo rev-parse HEAD) && git apply "$diff" || { echo "apply failed"; exit 2; }
-cd /verif && VERIF_REPO=/var/tmp/vf-mut timeout 1500 ./check $pid "$@" 2>&1 | grep -E "tier=|VIOLATION|HARNESS|^  [a-zA-Z0-9_:<>=-]+: " | cut -c1-330
-cd /var/tmp/vf-mut && git checkout -q -- .
+wt=${VFMUT:-/var/tmp/vf-mut}; cd $wt && git checkout -q -- . && git reset -q --hard $(git -C /repo rev-parse HEAD) && git apply "$diff" || { echo "apply failed"; exit 2; }
+cd /verif && VERIF_REPO=$wt timeout 1500 ./check $pid "$@" 2>&1 | grep -E "tier=|VIOLATION|HARNESS|^  [a-zA-Z0-9_:<>=-]+: " | cut -c1-330
+wt=${VFMUT:-/var/tmp/vf-mut}; cd $wt && git checkout -q -- .
